@@ -301,7 +301,7 @@ func templateLens(prov string) (tok, ui int) {
 	return len(obj(tokenPairs(prov, id))), len(obj(uiPairs(prov, id)))
 }
 
-func buildSpecs(prov string) []spec {
+func buildSpecs(prov string, thorough bool) []spec {
 	var s []spec
 	add := func(k string, a, b, c, d int) { s = append(s, spec{kind: k, a: a, b: b, c: c, d: d, decoy: len(s)%2 == 1}) }
 	tokLen, uiLen := templateLens(prov)
@@ -338,6 +338,11 @@ func buildSpecs(prov string) []spec {
 		for b := range b64Names {
 			for ev := range evNames {
 				for em := range emNames {
+					if prov != "google" && !thorough && (n+b+ev+em)%3 != 0 {
+						// quick tier, providers that do not read the claims: every segment count x base64 class
+						// still occurs with 14 of the 42 claim variants (thorough: all)
+						continue
+					}
 					add("idt", n, b, ev, em)
 				}
 			}
